@@ -48,10 +48,12 @@ func VerifC13_Prune() {
 			panic(err)
 		}
 	}
-	// evidence: each validator none / report A / report B
+	// evidence: each validator none / report A / report B; one of them may send its
+	// report a second time (a relayer retry; thorough tier: possibly a corrected report)
 	attested := int64(0)
 	gave := make([]bool, nv)
 	if delivered {
+		resubmitted := false
 		for v := 0; v < nv; v++ {
 			k := sym.Choice("evidence", 3)
 			if k == 0 {
@@ -63,6 +65,18 @@ func VerifC13_Prune() {
 			}
 			gave[v] = true
 			attested += tokens[v]
+			if !resubmitted && sym.Bool("resubmits") {
+				resubmitted = true
+				k2 := k
+				if sym.Tier() == "thorough" && sym.Bool("corrected-report") {
+					k2 = 3 - k
+				}
+				proof2, _ := codectypes.NewAnyWithValue(&evmtypes.SmartContractExecutionErrorProof{ErrorMessage: []string{"", "boom", "bang"}[k2]})
+				if err := env.Consensus.AddMessageEvidence(env.Ctx, Vals[v], &consensustypes.MsgAddEvidence{Proof: proof2, MessageID: id, QueueTypeName: c06Queue}); err != nil {
+					panic(err)
+				}
+				sym.Reach("evidence-resubmitted")
+			}
 		}
 	}
 	err = env.Consensus.PruneJob(env.Ctx, c06Queue, id)
